@@ -235,11 +235,18 @@ def tests(jobs):
             d = scratch_with(m)
             try:
                 env = dict(os.environ, CARGO_TARGET_DIR=tgt, CARGO_NET_OFFLINE='true')
+                import signal
+                pr = subprocess.Popen(['cargo', 'test', '--offline', '--lib', '--', '--test-threads', '4'], cwd=d, env=env, stdout=subprocess.PIPE, stderr=subprocess.DEVNULL, text=True, start_new_session=True)
                 try:
-                    r = subprocess.run(['cargo', 'test', '--offline', '--lib', '--', '--test-threads', '4'], cwd=d, env=env, capture_output=True, text=True, timeout=600)
-                    failed = re.findall(r'^test (\S+) \.\.\. FAILED', r.stdout, re.M)
-                    rq.put(dict(id=m['id'], rc=r.returncode, failed=failed[:6], summary=(re.findall(r'^test result.*$', r.stdout, re.M) or [''])[0]))
+                    so, _ = pr.communicate(timeout=420)
+                    failed = re.findall(r'^test (\S+) \.\.\. FAILED', so, re.M)
+                    rq.put(dict(id=m['id'], rc=pr.returncode, failed=failed[:6], summary=(re.findall(r'^test result.*$', so, re.M) or [''])[0]))
                 except subprocess.TimeoutExpired:
+                    try:
+                        os.killpg(pr.pid, signal.SIGKILL)   # the test binary too, not only cargo
+                    except OSError:
+                        pass
+                    pr.wait()
                     rq.put(dict(id=m['id'], rc=-9, failed=['TIMEOUT'], summary='timeout'))
             finally:
                 shutil.rmtree(d, ignore_errors=True)
